@@ -395,12 +395,26 @@ assert np.array_equal(h.points, rp) and np.array_equal(h.weights, rw), 'a later 
 def oracle(ctx: Ctx, budget: str):
     """Rounds 1-2 (`_oracle_histories`) and round 3 (`_oracle_round3`), between two snapshots of every
     module-level object the translator enumerates: no history may change any of them."""
-    procs = _pristine_start()
-    snap = _snapshot_state()
-    _oracle_histories(ctx, budget)
-    _oracle_round3(ctx, budget)
-    _pristine_compare(ctx, procs, budget)
-    _compare_snapshot(ctx, snap)
+    # every part runs even if another one crashes (a translator that cannot carry a changed source must not hide the
+    # failing inputs the histories find); the first exception is re-raised at the end
+    first = []
+
+    def part(fn, *a):
+        try:
+            return fn(*a)
+        except Exception as e:  # noqa: BLE001
+            first.append(e)
+            return None
+    procs = part(_pristine_start)
+    snap = part(_snapshot_state)
+    part(_oracle_histories, ctx, budget)
+    part(_oracle_round3, ctx, budget)
+    if procs is not None:
+        part(_pristine_compare, ctx, procs, budget)
+    if snap is not None:
+        part(_compare_snapshot, ctx, snap)
+    if first:
+        raise first[0]
 
 
 def _oracle_histories(ctx: Ctx, budget: str):
